@@ -6,6 +6,7 @@ import time
 import traceback
 
 from . import symex
+from .. import REPO as _REPO
 
 
 class Job:
@@ -131,7 +132,7 @@ def _worker(jobs, task_q, res_q, wid):
                 r = _run_forked(job, prefix, opts, cnt)
             else:
                 r = symex.run_path(job.fn, job.kwargs, prefix, opts, collect_funcs=(cnt < 2),
-                                   func_filter=opts.get('func_filter', '/repo/jesse'))
+                                   func_filter=opts.get('func_filter', _REPO + '/jesse'))
         except BaseException as e:  # engine error
             r = {'status': 'error', 'error': 'ENGINE: ' + repr(e) + '\n' + traceback.format_exc(limit=10),
                  'new_prefixes': [], 'events': {}, 'obligations': 0, 'discharged': 0, 'concrete_ok': 0,
@@ -153,7 +154,7 @@ def _run_forked(job, prefix, opts, cnt):
         try:
             os.close(r_fd)
             r = symex.run_path(job.fn, job.kwargs, prefix, opts, collect_funcs=(cnt < 2),
-                               func_filter=opts.get('func_filter', '/repo/jesse'))
+                               func_filter=opts.get('func_filter', _REPO + '/jesse'))
             r.pop('out', None)
             data = pickle.dumps(r)
             with os.fdopen(w_fd, 'wb') as f:
@@ -277,7 +278,7 @@ def run_inline(job, max_paths=100000, budget_s=600):
         opts = dict(job.opts)
         opts['want_sample'] = n < 2
         r = symex.run_path(job.fn, job.kwargs, prefix, opts, collect_funcs=(n < 2),
-                           func_filter=opts.get('func_filter', '/repo/jesse'))
+                           func_filter=opts.get('func_filter', _REPO + '/jesse'))
         n += 1
         res.add(r)
         stack.extend(r['new_prefixes'])
